@@ -1,11 +1,13 @@
 (* C08 - search set, counting and root-attribute classification is sound.
    Statements only; models in Incl/InclModel.v (classification) and Incl/TouchModel.v (the touch tests in binary64 / DPE /
    truncated multiprecision arithmetic, run against the real functions on every check), proofs in Incl/InclGeom.v,
-   Incl/InclProps.v and Incl/TouchProps.v. *)
+   Incl/InclProps.v, Incl/TouchProps.v (axis tests, f and d), Incl/TouchMp.v (mpf_get_rdpe, multiprecision axis tests),
+   Incl/TouchUnitReal.v + Incl/TouchUnitD.v (unit-circle test, DPE). *)
 From Coq Require Import ZArith Reals Lra Lia List Bool Arith.
 From Flocq Require Import Core BinarySingleNaN.
 Require Import MPSV.Dpe.DpeDefs MPSV.Dpe.DpeModel.
 Require Import MPSV.Incl.InclModel MPSV.Incl.InclGeom MPSV.Incl.InclProps MPSV.Incl.TouchModel MPSV.Incl.TouchExch MPSV.Incl.TouchProps.
+Require Import MPSV.Incl.TouchMp MPSV.Incl.TouchUnitReal MPSV.Incl.TouchUnitD.
 Import ListNotations.
 Local Open Scope R_scope.
 
@@ -213,39 +215,99 @@ Print Assumptions C08_dtouch_axis_sound.
 (* r = 1/2, c = -2, n = 3 clear; tangent n r = |c| (r = 1/2, c = 1, n = 2) touches *)
 Example C08_dtouch_axis_nonvacuous :
   dtouch_axis 3 (Rdpe fhalf 0) (Rdpe fmhalf 2) = false /\ dtouch_axis 2 (Rdpe fhalf 0) (Rdpe fhalf 1) = true /\
-  normalised (Rdpe fhalf 0) /\ normalised (Rdpe fmhalf 2) /\
-  mtouch_axis 3 (Rdpe fhalf 0) (-9007199254740993) (-52) = false.
+  normalised (Rdpe fhalf 0) /\ normalised (Rdpe fmhalf 2).
 Proof.
   split; [vm_compute; reflexivity|]. split; [vm_compute; reflexivity|].
-  split; [apply MPSV.Dpe.DpeProps.normalised_half|]. split; [apply MPSV.Dpe.DpeProps.normalised_mhalf|]. vm_compute; reflexivity.
+  split; [apply MPSV.Dpe.DpeProps.normalised_half|apply MPSV.Dpe.DpeProps.normalised_mhalf].
 Qed.
 
-(* --- PARTIAL: mps_mtouchreal / mps_mtouchimag are the DPE test applied to the centre coordinate truncated to 53 bits
-       (TouchModel.mpf_get_rdpe): `no touch' implies n * r < |trunc53 c|.  Missing: |trunc53 c| <= |c| and that
-       mpf_get_rdpe returns a normalised DPE (both hold by construction of trunc53 / rdpe_set_2dl, not proved here; the
-       abstract form of the remaining step is C08_dm_touch_axis_sound_partial below). *)
-Theorem C08_mtouch_axis_sound_partial : forall (n : Z) (r : rdpe) (cm ce : Z),
-  (1 <= n < 2 ^ 31)%Z -> normalised r -> normalised (mpf_get_rdpe cm ce) -> 0 <= rval r ->
-  (LONG_MIN + 2000 <= esp r <= LONG_MAX - 2000)%Z -> in_long (esp (mpf_get_rdpe cm ce)) ->
-  mtouch_axis n r cm ce = false -> IZR n * rval r < Rabs (rval (mpf_get_rdpe cm ce)).
-Proof. exact mtouch_axis_sound_trunc. Qed.
-Print Assumptions C08_mtouch_axis_sound_partial.
+(* --- mpf_get_rdpe (floating-point/link.c: zero the limb exponent, mpf_get_d, rdpe_set_2dl) on the exact dyadic cm * 2^ce an
+       mpf holds, concretely: a normalised DPE whose exponent stays inside `long', whose value is the significand truncated
+       towards zero to 53 bits (TouchModel.trunc53) times the same power of two: never larger in magnitude than the exact
+       number, within 2^-52 of it relatively, same sign.  (dy m e = m * 2^e.) *)
+Theorem C08_mpf_get_rdpe_spec : forall cm ce : Z,
+  (LONG_MIN + 2000 <= ce)%Z -> (ce + Z.log2 (Z.abs cm) <= LONG_MAX - 2000)%Z ->
+  let d := mpf_get_rdpe cm ce in
+  normalised d /\ in_long (esp d) /\
+  rval d = dy (fst (trunc53 cm)) (ce + snd (trunc53 cm)) /\
+  Rabs (rval d) <= Rabs (dy cm ce) /\
+  Rabs (dy cm ce - rval d) <= bpow radix2 (-52) * Rabs (dy cm ce) /\
+  (0 < rval d <-> 0 < dy cm ce) /\ (rval d < 0 <-> dy cm ce < 0).
+Proof. exact mpf_get_rdpe_spec. Qed.
+Print Assumptions C08_mpf_get_rdpe_spec.
 
-(* --- PARTIAL: the DPE and multiprecision axis tests.  mps_dtouchreal/imag compare rd (n * r) with |c|, mps_mtouchreal/imag
-       with tc = |c| truncated to 53 bits (mpf_get_rdpe, TouchModel.trunc53): for ANY monotone rounding rd of the product
-       that leaves tc unchanged, `no touch' implies n * r < |c| exactly.  For the DPE test this is superseded by
-       C08_dtouch_axis_sound (rd = the rounding of rdpe_mul_d, tc = |c|); it remains the statement of the truncation step of
-       the multiprecision test (tc = |trunc53 c| <= |c|).  The executable d and m models are run against
-       the real functions on every check, and every `no touch' is judged by exact rational arithmetic. *)
-Theorem C08_dm_touch_axis_sound_partial : forall (rd : R -> R) (n r c tc : R),
-  (forall x y, x <= y -> rd x <= rd y) -> rd tc = tc -> tc <= Rabs c ->
-  rd (n * r) < tc -> n * r < Rabs c.
-Proof. exact axis_test_abstract_sound. Qed.
-Print Assumptions C08_dm_touch_axis_sound_partial.
+(* --- mps_mtouchreal / mps_mtouchimag (rdpe_mul_d, mpf_get_rdpe, rdpe_abs_eq, rdpe_ge): `no touch' implies n * r < |c| EXACTLY
+       for the exact multiprecision coordinate c = cm * 2^ce of ANY precision (the truncation to 53 bits only shrinks |c|),
+       every factor and every normalised radius; exponents not within 2000 of the ends of `long'.  This was
+       C08_mtouch_axis_sound_partial / C08_dm_touch_axis_sound_partial (truncation step abstract) before. *)
+Theorem C08_mtouch_axis_sound : forall (n : Z) (r : rdpe) (cm ce : Z),
+  (1 <= n < 2 ^ 31)%Z -> normalised r -> 0 <= rval r ->
+  (LONG_MIN + 2000 <= esp r <= LONG_MAX - 2000)%Z ->
+  (LONG_MIN + 2000 <= ce)%Z -> (ce + Z.log2 (Z.abs cm) <= LONG_MAX - 2000)%Z ->
+  mtouch_axis n r cm ce = false -> IZR n * rval r < Rabs (dy cm ce).
+Proof. exact mtouch_axis_sound. Qed.
+Print Assumptions C08_mtouch_axis_sound.
 
-(* non-vacuity: truncation to integers as rd, n = 2, r = 1.25 (rd 2.5 = 2), c = -3.5, tc = 3 *)
-Example C08_dm_touch_axis_nonvacuous : 2 < 3 /\ 3 <= Rabs (- (7 / 2)) /\ 2 * (5 / 4) < Rabs (- (7 / 2)).
-Proof. rewrite Rabs_Ropp, Rabs_pos_eq by lra. lra. Qed.
+(* the half-plane side tests of mps_mupdate_inclusions (rdpe_le / rdpe_ge against zero on the truncated coordinate) read
+   the sign of the exact coordinate *)
+Theorem C08_mside_axis_sound : forall cm ce : Z,
+  (LONG_MIN + 2000 <= ce)%Z -> (ce + Z.log2 (Z.abs cm) <= LONG_MAX - 2000)%Z ->
+  let d := mpf_get_rdpe cm ce in
+  (rdpe_le d rdpe_zero = true <-> dy cm ce <= 0) /\ (rdpe_ge d rdpe_zero = true <-> 0 <= dy cm ce).
+Proof. exact mside_axis_sound. Qed.
+Print Assumptions C08_mside_axis_sound.
+
+(* a 54-bit coordinate -(2^53 + 1) * 2^-52 (truncated by mpf_get_rdpe), r = 1/2, n = 3: clear; n = 5: touch *)
+Example C08_mtouch_axis_nonvacuous :
+  mtouch_axis 3 (Rdpe fhalf 0) (-9007199254740993) (-52) = false /\ mtouch_axis 5 (Rdpe fhalf 0) (-9007199254740993) (-52) = true /\
+  trunc53 (-9007199254740993) = (-4503599627370496, 1)%Z /\ normalised (Rdpe fhalf 0) /\
+  (LONG_MIN + 2000 <= -52)%Z /\ (-52 + Z.log2 (Z.abs (-9007199254740993)) <= LONG_MAX - 2000)%Z.
+Proof.
+  split; [vm_compute; reflexivity|]. split; [vm_compute; reflexivity|]. split; [vm_compute; reflexivity|].
+  split; [apply MPSV.Dpe.DpeProps.normalised_half|]. split; vm_compute; discriminate.
+Qed.
+
+(* --- mps_dtouchunit as coded (cdpe_mod, rdpe_mul_d, rdpe_add_d, rdpe_lt, rdpe_add, rdpe_ge): for every factor n >= 2 (the
+       code passes 2 * degree) `no touch' puts the closed disc D(z, r) strictly on one side of the unit circle AND the side
+       tests of mps_dupdate_inclusions (rdpe_le / rdpe_ge of the same computed modulus against 1) name that side - under the
+       weakest hypothesis that is true of the code: NOT (r < 2^-49 and | |z| - 1 | < 2^-48).  In that corner the rounding of
+       cdpe_mod decides (C08_dtouchunit_refuted below: r = 2^-56, |z| within 2^-53 of 1).  zmod z = |z| exactly.
+       Uses C12's cmod_rel, add_rel, order_correct. *)
+Theorem C08_dtouch_unit_sound : forall (n : Z) (r : rdpe) (z : cdpe),
+  (2 <= n < 2 ^ 31)%Z -> normalised r -> 0 <= rval r -> (Z.abs (esp r) <= 2 ^ 60)%Z ->
+  cnormalised z -> csmall z ->
+  bpow radix2 (-49) <= rval r \/ bpow radix2 (-48) <= Rabs (zmod z - 1) ->
+  dtouch_unit n r z = false ->
+  (rval r + 1 < zmod z /\ rdpe_le (cdpe_mod z) rdpe_one = false /\ rdpe_ge (cdpe_mod z) rdpe_one = true) \/
+  (zmod z + rval r < 1 /\ rdpe_le (cdpe_mod z) rdpe_one = true /\ rdpe_ge (cdpe_mod z) rdpe_one = false).
+Proof. exact dtouch_unit_sound. Qed.
+Print Assumptions C08_dtouch_unit_sound.
+
+(* for radii not below 2^-49 the margin survives: the disc scaled by n - 1 is clear of the circle *)
+Theorem C08_dtouch_unit_sound_scaled : forall (n : Z) (r : rdpe) (z : cdpe),
+  (2 <= n < 2 ^ 31)%Z -> normalised r -> (Z.abs (esp r) <= 2 ^ 60)%Z ->
+  cnormalised z -> csmall z ->
+  bpow radix2 (-49) <= rval r ->
+  dtouch_unit n r z = false ->
+  (IZR (n - 1) * rval r + 1 < zmod z /\ rdpe_le (cdpe_mod z) rdpe_one = false /\ rdpe_ge (cdpe_mod z) rdpe_one = true) \/
+  (zmod z + IZR (n - 1) * rval r < 1 /\ rdpe_le (cdpe_mod z) rdpe_one = true /\ rdpe_ge (cdpe_mod z) rdpe_one = false).
+Proof. exact dtouch_unit_sound_scaled. Qed.
+Print Assumptions C08_dtouch_unit_sound_scaled.
+
+(* z = 4, r = 1/2, n = 4: clear, outside;  z = 1/2, r = 1/16, n = 2: clear, inside;  z = 1/2, r = 1/4, n = 2: tangent, touch *)
+Example C08_dtouch_unit_nonvacuous :
+  dtouch_unit 4 (Rdpe fhalf 0) (Cdpe (Rdpe fhalf 3) rdpe_zero) = false /\
+  dtouch_unit 2 (Rdpe fhalf (-3)) (Cdpe (Rdpe fhalf 0) rdpe_zero) = false /\
+  dtouch_unit 2 (Rdpe fhalf (-1)) (Cdpe (Rdpe fhalf 0) rdpe_zero) = true /\
+  cnormalised (Cdpe (Rdpe fhalf 3) rdpe_zero) /\ csmall (Cdpe (Rdpe fhalf 3) rdpe_zero) /\
+  bpow radix2 (-49) <= rval (Rdpe fhalf (-3)).
+Proof.
+  split; [vm_compute; reflexivity|]. split; [vm_compute; reflexivity|]. split; [vm_compute; reflexivity|].
+  split. { split; [apply MPSV.Dpe.DpeProps.normalised_half|]. split; [reflexivity|left; split; reflexivity]. }
+  split. { split; unfold esp_small; simpl; lia. }
+  unfold rval. cbn [mnt esp]. rewrite MPSV.Dpe.DpeProps.B2R_fhalf. change (/ 2) with (bpow radix2 (-1)). rewrite <- bpow_plus.
+  apply bpow_le. lia.
+Qed.
 
 (* --- REFUTED at the boundary: mps_mtouchunit is strict where the other two variants are not.  Radius 0 with the centre
        on the circle, and a disc tangent from inside, are declared clear (first four conjuncts / last four); with rdpe_ge
